@@ -95,6 +95,11 @@ class C16(Prop):
                 c['mode'] = 'twice'
                 c['share_universe'] = True
                 c['stream'] += ':twice-on-one-universe-object'
+            elif c['cfg']['universe'][0] == 'static' and not c['cfg'].get('signal_start_shift') and rng.random() < 0.4:
+                # the second session (same dates: the clock goes back) is given the SignalsCollection object of the first
+                c['mode'] = 'twice'
+                c['share_signals'] = True
+                c['stream'] += ':twice-on-one-signals-collection'
             out.append(c)
         # sessions in which some assets have no price yet on the first days (their files begin later): every priced asset is
         # still observed once per close, whatever the others have
@@ -149,7 +154,7 @@ class C16(Prop):
                     a, [x[0] for x in got][:4], [x[0] for x in want][:4]))
             elif any(x[1] != y[1] for x, y in zip(got, want)):
                 j.failures.append(label + 'signal observations of %s are not that day\'s close prices' % a)
-        if o['warmup'] is not None and o['error'] is None and o['warmup'] != len(closes):
+        if o['warmup'] is not None and o['error'] is None and o['warmup'] != len(closes) and not (label and c.get('share_signals')):
             j.failures.append(label + 'warmup counter %s after %d market closes' % (o['warmup'], len(closes)))
         if o['signal_obs']:
             j.nontrivial = True
